@@ -622,4 +622,18 @@ def docExample : Metadata :=
 example : Valid docExample ∧ docSide docExample = true ∧ StubSupported docExample ∧
     docOrder docExample = some (stubArgs docExample) ∧ (stubArgs docExample).length = 35 := by decide
 
+/-! ### `nfaces_re_h` with the `adjacent_face` mesh property (rules 5 and 6.1): passed exactly once -/
+def meshWitness (ps : List RefProp) : Metadata :=
+  { operatesOn := .cellColumn
+    args := [.scalar .real .read, .field .real 1 .inc 1 .none .none]
+    funcs := [], shapes := [], targets := [], refelem := ps, mesh := [.adjacentFace], bc := .none }
+
+/-- for every single reference-element property together with `adjacent_face`, `nfaces_re_h` occurs
+exactly once in the stub's list, before `adjacent_face`, and the list is the documented one -/
+theorem C21_nfaces_h_once : ∀ p : RefProp,
+    (stubArgs (meshWitness [p])).count (.nfacesRe .h) = 1 ∧
+    docOrder (meshWitness [p]) = some (stubArgs (meshWitness [p])) ∧
+    callArgs (meshWitness [p]) = stubArgs (meshWitness [p]) := by
+  intro p; cases p <;> decide
+
 end C21
